@@ -69,7 +69,7 @@ class SessTarget(object):
 
     def __init__(self):
         self.ptype, self.cap, self.ident, self.disk, self.fault, self.seen = 0, 1, 1, {0: 0, 1: 0}, 0, 0
-        self.for_b = False        # the command comes from the second facade's device (a media changer)
+        self.for_b = False        # the command ARRIVED through the changer's device object (set by the bindings' shim)
 
     def __call__(self, cdb, dataout, datain):
         import struct
@@ -121,13 +121,24 @@ def session(chk):
     d = bindings.shm_dir("c13s")
     path = os.path.join(d, "sg0")
     open(path, "wb").close()
+    path_b = os.path.join(d, "sg0b")          # the changer's node: which device a command arrived at is the target's
+    open(path_b, "wb").close()                # business (inode of the handle / iSCSI target name), not the harness's
+    ino_b = os.stat(path_b).st_ino
     SCSI = mod("pyscsi.pyscsi.scsi").SCSI
     steps = 0
     try:
         for b in beh:
             tgt = SessTarget()
-            fs.reset(tgt)
-            fi.reset(tgt)
+
+            def via_sgio(c_, o_, i_, tgt=tgt):
+                tgt.for_b = fs.CALLS[-1]["ino"] == ino_b
+                return tgt(c_, o_, i_)
+
+            def via_iscsi(c_, o_, i_, tgt=tgt):
+                tgt.for_b = fi.LOG[-1][1].get("target") == "iqn.changer"
+                return tgt(c_, o_, i_)
+            fs.reset(via_sgio)
+            fi.reset(via_iscsi)
             if b["tr"] == "iscsi":
                 dev = mod("pyscsi.pyiscsi.iscsi_device").ISCSIDevice("iscsi://h/iqn.t/0", "iqn.i")
             else:
@@ -136,11 +147,10 @@ def session(chk):
             if b["tr"] == "iscsi":
                 dev_b = mod("pyscsi.pyiscsi.iscsi_device").ISCSIDevice("iscsi://h/iqn.changer/0", "iqn.i")
             else:
-                dev_b = mod("pyscsi.pyscsi.scsi_device").SCSIDevice(path, readwrite=True)
-            tgt.for_b = True
+                dev_b = mod("pyscsi.pyscsi.scsi_device").SCSIDevice(path_b, readwrite=True)
             facade_b = SCSI(dev_b, 0)
-            tgt.for_b = False
             tgt.seen = 0
+            on_b = False
             kept, kind, held = None, "", None
             for i, s_ in enumerate(b["steps"]):
                 a = s_["act"]
@@ -178,7 +188,10 @@ def session(chk):
                     elif a == "tur":
                         facade.testunitready()
                     elif a == "reattach":
-                        facade(dev)
+                        facade(dev_b if on_b else dev)
+                    elif a == "switch":
+                        on_b = not on_b
+                        facade(dev_b if on_b else dev)
                     elif a == "probe9E":
                         d1 = int(facade.readcapacity16().result["returned_lba"])
                     elif a == "probeA3":
@@ -186,16 +199,12 @@ def session(chk):
                     elif a == "inspect":
                         d1 = int(held.data["sense_key"])
                     elif a.startswith("b_"):
-                        tgt.for_b = True
-                        try:
-                            if a == "b_probe9E":
-                                facade_b.readcapacity16()
-                            elif a == "b_probeA3":
-                                facade_b.reporttargetportgroups()
-                            else:
-                                facade_b(dev_b)
-                        finally:
-                            tgt.for_b = False
+                        if a == "b_probe9E":
+                            facade_b.readcapacity16()
+                        elif a == "b_probeA3":
+                            facade_b.reporttargetportgroups()
+                        else:
+                            facade_b(dev_b)
                     elif a == "settype":
                         tgt.ptype = s_["x"]
                     elif a == "resize":
